@@ -17,6 +17,7 @@ def getBehaviour (j : Json) : Except String Behaviour := do
                                          ((j.getObjValAs? Nat "close_after").toOption.getD 0))
   | "close_stdin" => pure .closeStdin
   | "slow_start" => pure .slowStart
+  | "slow_term" => pure (.slowTerm (← j.getObjValAs? Nat "term_delay_ms"))
   | s => throw s!"unknown behaviour {s}"
 
 def getPath (j : Json) : Except String ExitPath := do
@@ -62,6 +63,14 @@ def handle (j : Json) : Except String Json := do
   let reqs := match m with
     | .after n => (List.range n).map (fun i => if answers b (i + 1) then "returned" else "timeout")
     | _ => []
+  -- the wrapper that performs the handshake on entry, with a child that does not answer it
+  if (j.getObjValAs? String "api").toOption == some "with_initialize" && !answers b 1 then
+    let r := sessionWithHandshake Design.sound os false p (childSpec b .before) load
+    let ok := match r.2 with
+      | some t => t.child == ChildState.reaped && decide (t.duration ≤ graceTermMs + graceKillMs)
+      | none => false
+    return Json.mkObj [("raised_on_enter", Json.bool r.1), ("child", Json.str (if ok then "reaped" else "running")),
+      ("bounded", Json.bool ok), ("requests", toJson ([] : List String))]
   -- `sessions` sequential sessions on one client object: every one of them must end like the first
   let k := (j.getObjValAs? Nat "sessions").toOption.getD 1
   let rs := sessions Design.sound os (List.replicate k (p, childSpec b m, load))
